@@ -767,7 +767,7 @@ def _m(name, old, new, rule, control=False, count=1):
 MUTANTS = [
     # the D8 finding is present on today's tree (known); these are further breakages
     _m("reference-never-updated", "            cluster_idx += 1\n            cluster_norm = current_norm\n",
-       "            cluster_idx += 1\n", "R1", control=True),
+       "            cluster_idx += 1\n", "R1"),
     _m("signed-gap-wrong-direction", "if abs(cluster_norm - current_norm) > tol:", "if cluster_norm - current_norm > tol:", "R1"),
     _m("key-squared-norm", "point_norms = np.sqrt(np.sum(points**2, axis=0))", "point_norms = np.sum(points**2, axis=0)", "R2", control=True),
     _m("key-l1-norm", "point_norms = np.sqrt(np.sum(points**2, axis=0))", "point_norms = np.sum(np.abs(points), axis=0)", "R2"),
@@ -785,7 +785,7 @@ MUTANTS = [
     _m("start-advanced-by-uniques", "        cluster_start += cluster_size", "        cluster_start += unique_size_inner", "R3"),
     _m("start-size-swapped", "            cluster_start=cluster_start,\n            cluster_size=cluster_size,",
        "            cluster_start=cluster_size,\n            cluster_size=cluster_start,", "R3"),
-    _m("replace-by-larger-index", "if sorted_idx[i] < new_2_old[idx]:", "if sorted_idx[i] > new_2_old[idx]:", "R4", control=True),
+    _m("replace-by-larger-index", "if sorted_idx[i] < new_2_old[idx]:", "if sorted_idx[i] > new_2_old[idx]:", "R4"),
     _m("replace-index-only", "                new_2_old[idx] = sorted_idx[i]\n                unique_cols[:, idx] = col\n",
        "                new_2_old[idx] = sorted_idx[i]\n", "R4"),
     _m("replace-coords-only", "                new_2_old[idx] = sorted_idx[i]\n                unique_cols[:, idx] = col\n",
